@@ -48,7 +48,7 @@ func e2eCyclesWorker(args []string) error {
 		_ = os.WriteFile(p.Trace+".summary", b, 0o644)
 	}()
 
-	cfg := agent.Cfg{N4Addr: p.N4Addr, Datapath: "bess", LogLevel: "error", ReadTimeout: 1, RespTimeout: "2s", MaxReqRetries: 5,
+	cfg := agent.Cfg{N4Addr: p.N4Addr, Datapath: "bess", LogLevel: "warn", ReadTimeout: 1, RespTimeout: "2s", MaxReqRetries: 5,
 		UEIPAlloc: true, UEPool: fmt.Sprintf("10.%d.%d.0/%d", 100+rng.Intn(100), rng.Intn(256), p.PoolLen), NotifyBess: true, EndMarker: rng.Intn(2) == 0}
 	if p.Mode == "hb" {
 		cfg.HBTimer, cfg.HBInterval, cfg.RespTimeout, cfg.MaxReqRetries, cfg.ReadTimeout = true, "60ms", "40ms", 1, 30
